@@ -89,8 +89,10 @@ func (b *BloomSearchEngine) flushWorker() {
 		if !shuttingDown {
 			select {
 			case <-b.ctx.Done():
+				verifEvent("worker.ctxdone", 0, 0)
 				shuttingDown = true
 			case flushReq := <-b.flushChan:
+				verifEvent("worker.take", 0, 0)
 				b.handleFlush(b.flushCtx, flushReq)
 			}
 			continue
@@ -98,15 +100,19 @@ func (b *BloomSearchEngine) flushWorker() {
 
 		select {
 		case flushReq := <-b.flushChan:
+			verifEvent("worker.take", 0, 0)
 			b.handleFlush(b.flushCtx, flushReq)
 		case <-b.ingestDone:
+			verifEvent("worker.ingestdone", 0, 0)
 			// The ingest worker has exited, so every flush request it will
 			// ever produce is already in the channel; drain them all.
 			for {
 				select {
 				case flushReq := <-b.flushChan:
+					verifEvent("worker.take", 0, 0)
 					b.handleFlush(b.flushCtx, flushReq)
 				default:
+					verifEvent("worker.exit", 0, 0)
 					b.logger.Debug("flush worker stopped")
 					return
 				}
@@ -142,6 +148,7 @@ func (b *BloomSearchEngine) handleFlush(ctx context.Context, flushReq flushReque
 	// every waiter instead (best effort — ctx is already canceled, so only
 	// ready channels receive it).
 	if err := ctx.Err(); err != nil {
+		verifEvent("fl.abandoned", 0, 0)
 		b.logger.Warn("flush abandoned: shutdown deadline expired before the flush could run",
 			"partitions", len(flushReq.partitionBuffers), "waiters", len(flushReq.doneChans))
 		sendToChannelsWithContext(ctx, flushReq.doneChans, fmt.Errorf("flush abandoned: %w", err))
@@ -149,6 +156,7 @@ func (b *BloomSearchEngine) handleFlush(ctx context.Context, flushReq flushReque
 	}
 
 	if len(flushReq.partitionBuffers) == 0 {
+		verifEvent("fl.ackonly", 0, 0)
 		sendToChannelsWithContext(ctx, flushReq.doneChans, nil)
 		return
 	}
@@ -158,6 +166,7 @@ func (b *BloomSearchEngine) handleFlush(ctx context.Context, flushReq flushReque
 		DataBlocks:             make([]DataBlockMetadata, 0),
 	}
 
+	verifEvent("fl.begin", 0, 0)
 	// Stream write to data store
 	writer, filePointerBytes, err := b.dataStore.CreateFile(ctx)
 	if err != nil {
